@@ -83,6 +83,7 @@ const (
 	EvMapDelete   // delete(m, k): Args = [m, k]
 	EvAppendSlice // append(base, other...) with an unknown number of values: Slice = base, Args = [other], Val = result
 	EvLoadElem    // first read of the (never written) element Slice[Idx]: Val = the symbolic element
+	EvMul         // a floating-point product whose operands are not both constants: Args = [x, y]
 )
 
 type Event struct {
@@ -1273,6 +1274,9 @@ func (f *frame) binop(op token.Token, a, b Val, operandT types.Type, at ssa.Valu
 		case token.SUB:
 			return e.Sub(sa, sb)
 		case token.MUL:
+			if e.Ext {
+				f.traceMul(sa, sb, operandT, at) // (Ext) clients that judge the algebraic FORM need the operands of products
+			}
 			return e.Mul(sa, sb)
 		case token.QUO:
 			if isFloatType(operandT) {
